@@ -215,7 +215,7 @@ Qed.
 Definition imb (s : state) (z : zts) : Z := sum_bal z (bal s) + inflight_sum z s - tok_total s z.
 
 Definition supply_eq (s : state) : Prop :=
-  forall z, z <> ZeroZts -> tok_total s z = sum_bal z (bal s) + inflight_sum z s.
+  forall z, z <> ZeroId -> tok_total s z = sum_bal z (bal s) + inflight_sum z s.
 Definition supply_le_max (s : state) : Prop :=
   forall z t, get_tok z (toks s) = Some t -> t_total t <= t_max t.
 Definition bal_nonneg (s : state) : Prop := forall a z, 0 <= balance s a z.
@@ -235,7 +235,7 @@ Record WF (s : state) : Prop := mkWF {
 
 Definition Inv (s : state) : Prop := supply_eq s /\ supply_le_max s /\ WF s.
 
-Lemma supply_eq_imb s : supply_eq s <-> forall z, z <> ZeroZts -> imb s z = 0.
+Lemma supply_eq_imb s : supply_eq s <-> forall z, z <> ZeroId -> imb s z = 0.
 Proof. unfold supply_eq, imb. split; intros H z Hz; specialize (H z Hz); lia. Qed.
 
 Lemma Inv_bal_nonneg s : Inv s -> bal_nonneg s.
@@ -426,7 +426,7 @@ Proof.
   destruct (max =? 0); [discriminate|].
   destruct (max <? total) eqn:E1; [discriminate|].
   destruct (negb mi && negb (max =? total)); [discriminate|].
-  destruct (negb (s_zts sd =? ZnnZts)); [discriminate|].
+  destruct (negb (s_zts sd =? ZnnId)); [discriminate|].
   destruct (negb (s_amt sd =? TokenIssueAmount)); [discriminate|].
   destruct (get_tok nz (toks s)) eqn:G; [discriminate|].
   intros X; inversion X; subst s2 descs; clear X. intros W L.
@@ -449,7 +449,7 @@ Proof.
   destruct (get_tok z (toks s)) as [t|] eqn:G; [|discriminate].
   destruct (negb (t_mintable t)); [discriminate|].
   destruct (t_max t - t_total t <? amount) eqn:E1; [discriminate|].
-  destruct (negb (if (z =? ZnnZts) || (z =? QsrZts) then is_emb (s_from sd) else t_owner t =? s_from sd)); [discriminate|].
+  destruct (negb (if (z =? ZnnId) || (z =? QsrId) then is_emb (s_from sd) else t_owner t =? s_from sd)); [discriminate|].
   intros X; inversion X; subst s2 descs; clear X. intros W L.
   split; [apply WF_add_balance; [apply WF_set_toks; exact W | lia]|].
   split; [eapply le_max_same_toks; [reflexivity | apply le_max_set_tok; [exact L | cbn [t_total t_max]; lia]]|].
@@ -680,7 +680,7 @@ Proof.
         destruct (e =? E_BAD_OP); [intros X; inversion X; subst; exact I|]. exact RBm.
     - exact RBm.
     - intros X; inversion X; subst; exact I. }
-  destruct k; exact (MAIN H).
+  exact (MAIN H).
 Qed.
 
 Theorem step_inv s o s' r : Inv s -> step true s o = (s', r) -> Inv s'.
@@ -701,7 +701,7 @@ Qed.
 Theorem supply_conserved ops s0 :
   Inv s0 ->
   let s := run true s0 ops in
-  (forall z, z <> ZeroZts -> tok_total s z = sum_bal z (bal s) + inflight_sum z s) /\
+  (forall z, z <> ZeroId -> tok_total s z = sum_bal z (bal s) + inflight_sum z s) /\
   (forall z, tok_total s z <= tok_max s z) /\
   (forall a z, 0 <= balance s a z).
 Proof.
@@ -818,7 +818,7 @@ Proof.
           ((r = ROk false /\ rollback_embedded saved c sd dh rok = (s', ROk false)) \/
            (r = ROk true /\ exists s2 descs, run_method s1 c sd k = Some (Some (s2, descs)) /\
                                apply_descs s2 c descs dh = inl s' /\ descs_amounts_ok descs = true)))
-    by (destruct k; exact (MAIN H)).
+    by (exact (MAIN H)).
   destruct G as [G|G]; [left; exact G | right; exists sd; auto].
 Qed.
 
